@@ -818,6 +818,31 @@ func (p *printer) count(t *Term) {
 	}
 }
 
+// hoistIte gives every ground if-then-else inside a pattern a declared name (z3 rejects a pattern that contains 'if',
+// also through a define-fun, and then falls back to model-based instantiation): after a branch merge heaps are ite terms.
+func (p *printer) hoistIte(t *Term, seen map[int]bool) {
+	if seen[t.id] {
+		return
+	}
+	seen[t.id] = true
+	if t.op == "ite" && !t.bound {
+		if n, ok := p.names[t.id]; ok && strings.HasPrefix(n, "pi") {
+			return
+		}
+		body := p.str(t, false)
+		n := fmt.Sprintf("pi%d", t.id)
+		p.defs = append(p.defs, fmt.Sprintf("(declare-const %s %s)", n, t.sort), fmt.Sprintf("(assert (= %s %s))", n, body))
+		p.names[t.id] = n
+		return
+	}
+	if t.op == "forall" || t.op == "exists" {
+		return
+	}
+	for _, a := range t.args {
+		p.hoistIte(a, seen)
+	}
+}
+
 func (p *printer) str(t *Term, top bool) string {
 	if n, ok := p.names[t.id]; ok {
 		return n
@@ -846,6 +871,7 @@ func (p *printer) str(t *Term, top bool) string {
 			for _, pat := range t.pats {
 				var xs []string
 				for _, x := range pat {
+					p.hoistIte(x, map[int]bool{})
 					xs = append(xs, p.str(x, false))
 				}
 				ps = append(ps, ":pattern ("+strings.Join(xs, " ")+")")
